@@ -27,11 +27,20 @@ def init : St := { t := TtlMap.init, nexec := 0, inflight := [] }
 def save (c : Cfg) (t : TtlMap) (id : Nat) : TtlMap :=
   (t.remove kAux).write kMain (pack2 t.now id) (some c.ttl)
 
+/-- the store step of `_get_and_save` raises: `cond_result = store(result, …)` (or a callable ttl) before anything is
+touched; or `backend.set` inside `asyncio.gather(backend.delete(key + ":counter"), backend.set(…))` — the deletion
+of the counter is a task of its own and completes, the stored result stays what it was -/
+def afterStoreFailure (t : TtlMap) : Stage → TtlMap
+  | .pre => t
+  | .set => t.remove kAux
+
 /-- `return await _get_and_save(*call_args)` in the foreground -/
 def execute (c : Cfg) (s : St) (t1 : TtlMap) (o : Outcome) : St × CallOut :=
   let id := s.nexec
   match o with
   | .ok => ({ s with t := save c t1 id, nexec := id + 1 }, ⟨.fresh s.t.now id, true, false⟩)
+  | .rejected => ({ s with t := t1, nexec := id + 1 }, ⟨.fresh s.t.now id, true, false⟩)
+  | .storeFails st l => ({ s with t := afterStoreFailure t1 st, nexec := id + 1 }, ⟨.storeErr l, true, false⟩)
   | _ => ({ s with t := t1, nexec := id + 1 }, ⟨.raised o, true, false⟩)
 
 /-- `_wrap` -/
@@ -53,6 +62,8 @@ def call (c : Cfg) (s : St) (o : Outcome) : St × CallOut :=
             -- `if not background: await task`  (the exception of a failing refresh propagates)
             match o with
             | .ok => ({ s with t := save c t1 id, nexec := id + 1 }, ⟨.stored stamp id0, true, true⟩)
+            | .rejected => ({ s with t := t1, nexec := id + 1 }, ⟨.stored stamp id0, true, true⟩)
+            | .storeFails st l => ({ s with t := afterStoreFailure t1 st, nexec := id + 1 }, ⟨.storeErr l, true, true⟩)
             | _ => ({ s with t := t1, nexec := id + 1 }, ⟨.raised o, true, true⟩)
         else ({ s with t := t1 }, ⟨.stored stamp id0, false, false⟩)
       else execute c s t1 o
@@ -66,6 +77,8 @@ def done (c : Cfg) (s : St) (i : Nat) (o : Outcome) : St × DoneRes :=
   | some id =>
     match o with
     | .ok => ({ s with t := save c s.t id, inflight := s.inflight.eraseIdx i }, .stored)
+    | .rejected => ({ s with inflight := s.inflight.eraseIdx i }, .skipped)
+    | .storeFails st _ => ({ s with t := afterStoreFailure s.t st, inflight := s.inflight.eraseIdx i }, .failed)
     | _ => ({ s with inflight := s.inflight.eraseIdx i }, .failed)
 
 def step (c : Cfg) (s : St) : DOp → St × Ans
@@ -73,37 +86,39 @@ def step (c : Cfg) (s : St) : DOp → St × Ans
   | .adv dt => ({ s with t := advance s.t dt }, .ok)
   | .done i o => let r := done c s i o; (r.1, .done r.2)
 
-/-! ### counting serves (functions of the *answers* only — no ghost state in the model) -/
+/-! ### counting serves (functions of the recorded operations and their *answers* only — no ghost state in the model) -/
 
 def isStored : Res → Bool
   | .stored _ _ => true
   | _ => false
 
+/-- this recorded operation got as far as `backend.set` (and so deleted `<key>:counter`): a call that executed
+the function, or a completed background refresh, whose scripted outcome reaches the set — the result was
+stored, or the backend refused it -/
+def reachedSet : DOp → Ans → Bool
+  | .call o, .call out => out.exec && o.reachesSet
+  | .done _ o, .done r => r != .noop && o.reachesSet
+  | _, _ => false
+
 /-- serves since the last execution event: an answer that executed the function or created a refresh
 task resets the count, an answer taken from the store adds one (a foreground refresh executes first
 and answers afterwards, hence reset-then-count).  With `resetOnDone` a background refresh that
-completes and stores its result counts as an execution event too. -/
-def runAfter (resetOnDone : Bool) (g : Nat) : Ans → Nat
+completes and gets as far as storing its result counts as an execution event too. -/
+def runAfter (resetOnDone : Bool) (g : Nat) (op : DOp) : Ans → Nat
   | .call out => (if out.exec || out.started then 0 else g) + (if isStored out.res then 1 else 0)
-  | .done .stored => if resetOnDone then 0 else g
+  | .done r => if resetOnDone && reachedSet op (.done r) then 0 else g
   | _ => g
 
-/-- a result was stored while this call ran -/
-def storedIn (out : CallOut) : Bool :=
-  match out.res with
-  | .fresh _ _ => true
-  | .stored _ _ => out.exec      -- a foreground refresh succeeded (its failure raises)
-  | _ => false
-
-/-- calls since a result was last stored (= what `<key>:counter` counts while that result lives) -/
-def callsAfter (k : Nat) : Ans → Nat
-  | .call out => if storedIn out then 0 else k + 1
-  | .done .stored => 0
+/-- calls since a store was last made or attempted (= what `<key>:counter` counts while a result lives);
+without store-step failures: calls since a result was last stored -/
+def callsAfter (k : Nat) (op : DOp) : Ans → Nat
+  | .call out => if reachedSet op (.call out) then 0 else k + 1
+  | .done r => if reachedSet op (.done r) then 0 else k
   | _ => k
 
 /-- the two counts at the end of a recorded history: (serves since the last execution event,
 calls since the last store) -/
 def counts (resetOnDone : Bool) (tr : List (St × DOp × Ans)) : Nat × Nat :=
-  tr.foldl (fun gk e => (runAfter resetOnDone gk.1 e.2.2, callsAfter gk.2 e.2.2)) (0, 0)
+  tr.foldl (fun gk e => (runAfter resetOnDone gk.1 e.2.1 e.2.2, callsAfter gk.2 e.2.1 e.2.2)) (0, 0)
 
 end CashewsVerif.Decor.Hit
